@@ -27,7 +27,7 @@ def uri_tie(ctx):
     cases = []
     lits = ["a", "b", "Items", "x-y", "v1", "%7E", "a.b", ""]
     names = ["id", "Name", "k-1", "x_y", "b"]
-    for _ in range(600 if ctx.thorough else 150):
+    for _ in range(1800 if ctx.thorough else 150):
         k = rng.randint(1, 4)
         segs = []
         used = set()
@@ -123,7 +123,7 @@ def check(ctx):
         if v["input"].get("base") is not None:
             ps[0]["base"] = json.dumps(v["input"]["base"])
     else:
-        n = 2500 if ctx.thorough else 500
+        n = 7500 if ctx.thorough else 500
         ps = progs.gen_programs(ctx, n)
         extra = [
             "let @price$usd = { 'amount num };\nres /p on get -> <@price$usd>;\n",
@@ -144,7 +144,7 @@ def check(ctx):
     if not ctx.replay:
         uri_tie(ctx)
         # C03_spec_refs_closed is a theorem about Model/Eval.v: the evaluator tie
-        evaltie.run(ctx, ps[: (800 if ctx.thorough else 160)] + evaltie.repo_corpus())
+        evaltie.run(ctx, ps[: (2400 if ctx.thorough else 160)] + evaltie.repo_corpus())
     res = progs.compile_many(ps)
     seen = set()
     for p, r in zip(ps, res):
